@@ -1,4 +1,5 @@
 import OomdProofs.EngineC05
+import OomdProofs.EngineRun
 import OomdProps.C02
 
 /-!
@@ -70,6 +71,20 @@ theorem no_action_during_pause (cfg : RsCfg) :
       refine ⟨?_, hrest⟩
       rw [h2] at hafter
       simpa using hafter
+
+/-- **C05 for every ruleset of every run of the whole engine** (`OomdModel.Engine.run`: any number
+of rulesets, any tick spacing, any scripts): the events of the ruleset at position `j` satisfy
+the property, because the engine only ever invokes a ruleset the way `rsHistory` assumes
+(`trackJ_eq_rsHistory`) - other rulesets influence it through the clock alone. -/
+theorem engine_no_action_during_pause (j : Nat) (ticks : List TickIn) (w : World) (cfg : RsCfg) (st : RsState)
+    (h : w.rs[j]? = some (cfg, st)) (hp : ∀ ti ∈ ticks, Protocol ti.sc) (hg : st.overrode = false) :
+    holdsC05 (trackJ true j w ticks) = true := by
+  rw [trackJ_eq_rsHistory true j ticks w cfg st w.now h (Nat.le_refl _)]
+  refine no_action_during_pause cfg _ st w.now ?_ hg
+  intro i hi
+  obtain ⟨ti, hti, hs⟩ := invsOf_sc true j ticks w i hi
+  rw [hs]
+  exact hp ti hti
 
 /-- The deadline a STOP sets is exactly `t + d`: `t` the reading when the stopping action returned,
 `d` its own delay if it specifies one, else the ruleset's; nothing else of the chain changes it. -/
